@@ -7,6 +7,7 @@
 -/
 import PySpikeVerif.Gen.Classes
 import PySpikeVerif.Gen.Classes2
+import PySpikeVerif.Gen.Classes3
 import PySpikeVerif.Gen.IsiLengths
 open PySpike.Gen PySpike.GenCls
 
@@ -34,6 +35,12 @@ def show2 (o : Option (List Rat × List Rat)) : String :=
 def show3 (o : Option (List Rat × List Rat × List Rat)) : String :=
   match o with | some (a, b, c) => showFields [a, b, c] | none => "reject"
 
+def evens : List Rat → List Rat
+  | a :: _ :: r => a :: evens r
+  | _ => []
+def odds : List Rat → List Rat
+  | _ :: b :: r => b :: odds r
+  | _ => []
 def show1 (o : Option Rat) : String := match o with | some v => showQ v | none => "reject"
 def showMany (l : List (Option Rat)) : String :=
   match l.mapM id with | some vs => showFields [vs] | none => "reject"
@@ -54,6 +61,10 @@ def handle (op : String) (f : List (List Rat)) : String :=
     match disc_integral_all 4 x y mp with | some (a, b) => showFields [[a, b]] | none => "reject"
   | "disc_integral", [x, y, mp, [a, b]] =>
     match disc_integral 4 x y mp a b with | some (u, v) => showFields [[u, v]] | none => "reject"
+  | "pwc_avrg_list", [x, y, iv] => show1 (pwc_avrg_list (iv.length + 4) x y (evens iv) (odds iv))
+  | "pwl_avrg_list", [x, y1, y2, iv] => show1 (pwl_avrg_list (iv.length + 4) x y1 y2 (evens iv) (odds iv))
+  | "disc_integral_list", [x, y, mp, iv] =>
+    match disc_integral_list (iv.length + 4) x y mp (evens iv) (odds iv) with | some (u, v) => showFields [[u, v]] | none => "reject"
   | "disc_plot", [x, y, mp, [k]] =>
     match disc_plottable (x.length + 4) x y mp k.num with
     | some (xs, ys) => showFields [xs, ys] | none => "reject"
